@@ -56,4 +56,37 @@ CLAIMED.update({
            'Decides which IV slot reaches stream k (known finding: every stream gets slot 0), that the array is the one stored in / read '
            'from the header, and that the chain starts from the hash of the whole seed.'),
 })
+CLAIMED.update({
+ 'C07': _c('abstract interpretation with byte/bit-field terms over all 64 final-block sizes; inductive loop step; reduced-constant object simulation',
+           'Decides: initial chaining words and SHA-256 K equal values derived from first principles; for every final-block size 0..63 and a '
+           'symbolic block count the padded message is msg || 0x80 || 0* || 64-bit length in the right byte order (this covers the bit counter '
+           'and its width); digest byte order; string driver for 0..3 blocks x 64 residues plus the inductive step of its block loop; file '
+           'driver unit sequence; the file buffer both by an inductive invariant per call and by simulating the object for a reduced unit '
+           'count over 331 file lengths. The compress functions themselves (round arithmetic) are not yet covered by term conformance.'),
+ 'C09': dict(category='proof', technique='term conformance: abstract interpretation over hash-consed byte terms vs a FIPS-197 reference built from the text',
+             text='The key-schedule constructor and both single-block functions are interpreted over free key / round-key / block bytes; the 176+16+16 '
+                  'output terms are identical (canonical xor-of-table DAGs) to those of a reference written from FIPS-197 5.1-5.3; tables equal '
+                  'first-principles derivations. Equal canonical terms are equal functions, hence the claim for all 2^128 x 2^128 inputs.',
+             note='Trusted: clang front end, extractor, term interpreter (byte-addressed unions, little-endian), canonicaliser, spec/aes.py (self-checked on FIPS-197 C.1).'),
+ 'C10': dict(category='proof', technique='term conformance of one mode step with the block cipher uninterpreted + exhaustive carry-pattern partition of the counter',
+             text='For all ten factory products one runcry step equals the SP 800-38A step as terms over free block/iv bytes (E/D uninterpreted); the '
+                  'step touches only block, iv and cipher scratch (no retained pointer, no other member), so the stream claim follows by induction; '
+                  'reference decrypt inverts reference encrypt; the CTR counter is a 128-bit big-endian +1 over all 17 carry classes; two streams of '
+                  'one factory share no mutable storage.',
+             note='Trusted: as C09, plus spec_step in rules/mode_rules.py written from SP 800-38A 6.1-6.5; decryaes inverts encryaes (C09).'),
+ 'C11': _c('abstract interpretation of verify/decrypt with unknown file bytes and short reads; pipeline arithmetic; finaliser extents for all residues',
+           'Decides: no NULL factory result is dereferenced on any path steered by file bytes, the cipher selector reaching the stream factory is '
+           'within its non-NULL cases, header reads fit their buffers for every T, no output effect without verify()==0, no READY buffer without '
+           'blocks, export size within the buffer, hash finaliser writes stay inside the 64-byte block for all residues.'),
+ 'C15': _c('acquire/release pairing on all abstract paths + inventory of mutable statics with a use classification',
+           'Decides: singleton released and live counter 0 at every exit of every operation, parser globals reset before each parse, name tables '
+           'and default settings never written, and any other mutable object with static storage is never read by an operation.'),
+ 'C16': _c('abstract interpretation with bit-field terms (encoder); exhaustive shape exploration with prefix pruning (validator); bounds at call sites',
+           'Decides: tables are RFC 4648; every encoder output position for lengths 0..19 is alphabet[right 6-bit field] with correct padding and '
+           'terminator; the validator accepts exactly 22 symbols + "=="; every accepted key decodes to <= 16 bytes inside the call-site buffers; '
+           'the validator sees the whole string.'),
+ 'C17': _c('abstract interpretation of the option parser over all option sequences (getopt forks over the code\'s own option table, widening)',
+           'Decides: required fields non-NULL per mode at every successful return, diagnostics on every failure return, validation before narrowing, '
+           'no unbounded string write, throwing library calls guarded, default output differs from input, exit status 0 iff the operation result is true.'),
+})
 NOT_CLAIMED = {}
